@@ -71,6 +71,19 @@ def aero_verdict(desc):
     out.close("aero/M", M2 * np.array([-1.0, 1.0, -1.0]), M1, rtol=1e-9, atol=1e-9 * fs)
     C1, C2 = p1.get_val(P + "CM"), p2.get_val(P + "CM")
     out.close("aero/CM", C2 * np.array([-1.0, 1.0, -1.0]), C1, rtol=1e-9, atol=1e-12)
+    # the SAME live problem re-analysed in the mirror-image configuration (mesh, sideslip, rates, reference point set to
+    # their mirror images) must give the mirror image as well: the mirrored AIC matrix is a permutation of the original
+    # one (same norm, same spectrum), which is exactly what a change detector keyed on a scalar summary cannot see
+    from oasv.models import set_flow
+
+    for k, m in enumerate(meshes):
+        p1.set_val("s%d_mesh" % k, mirror_mesh(m), units="m")
+    set_flow(p1, fm)
+    p1.run_model()
+    for k in range(ns):
+        F2 = p2.get_val(P + "aero_states.s%d_sec_forces" % k)
+        out.close("aero/reused_problem/sec_forces", p1.get_val(P + "aero_states.s%d_sec_forces" % k), F2, rtol=1e-9, scale=fs)
+    out.close("aero/reused_problem/CM", p1.get_val(P + "CM"), C2, rtol=1e-9, atol=1e-12)
     out.label("nsurf=%d" % ns)
     if fl.get("beta", 0.0) != 0:
         out.label("sideslip")
